@@ -115,21 +115,25 @@ Definition check_v2 (e : env) (outs : list output) (total dpos_reward : Z) : ver
   let dp := ceil35 total in
   let miner := sub64 (sub64 total cr) dp in
   match outs with
-  | o0 :: o1 :: rest =>
-      if negb (o_val o0 =? cr) then Reject
-      else if negb (o_val o1 =? miner) then Reject
-      else match rest with
-           | [o2] =>
-               if negb (o_val o2 =? dpos_reward) then Reject
-               else if e_pow e then
-                 if negb (o_addr o2 =? e_destroy e) then Reject
-                 else if negb (o_addr o0 =? e_destroy e) then Reject else Accept
-               else
-                 if negb (o_addr o0 =? e_cr_assets e) then Reject
-                 else if negb (o_addr o2 =? e_dpos_acc e) then Reject else Accept
-           | _ => Reject
-           end
-  | _ => Panic                       (* Outputs()[0] / [1]: index out of range *)
+  | [] => Panic                      (* Outputs()[0]: index out of range *)
+  | o0 :: rest0 =>
+      if negb (o_val o0 =? cr) then Reject      (* decided before Outputs()[1] is read *)
+      else match rest0 with
+      | [] => Panic                  (* Outputs()[1]: index out of range *)
+      | o1 :: rest =>
+          if negb (o_val o1 =? miner) then Reject
+          else match rest with
+               | [o2] =>
+                   if negb (o_val o2 =? dpos_reward) then Reject
+                   else if e_pow e then
+                     if negb (o_addr o2 =? e_destroy e) then Reject
+                     else if negb (o_addr o0 =? e_destroy e) then Reject else Accept
+                   else
+                     if negb (o_addr o0 =? e_cr_assets e) then Reject
+                     else if negb (o_addr o2 =? e_dpos_acc e) then Reject else Accept
+               | _ => Reject
+               end
+      end
   end.
 
 Definition check_h2 (e : env) (outs : list output) (total : Z) : verdict :=
